@@ -60,8 +60,8 @@ def extract(repo, out_path):
              "consts": {}, "layouts": {}, "context_default": {}, "errors": []}
 
     # 1. static-storage variables + function definitions per compiled TU (text AST, streamed)
-    var_re = re.compile(r"^(?P<ind>[|`\- ]*)VarDecl 0x[0-9a-f]+ <(?P<loc>[^>]*)> (?:(?:line|col):[0-9:]+ )?(?P<rest>.*)$")
-    fn_re = re.compile(r"^(?P<ind>[|`\- ]*)FunctionDecl 0x[0-9a-f]+ (?:prev 0x[0-9a-f]+ )?<(?P<loc>[^>]*)> (?:(?:line|col):[0-9:]+ )?(?P<rest>.*)$")
+    var_re = re.compile(r"^(?P<ind>[|`\- ]*)VarDecl 0x[0-9a-f]+ (?:prev 0x[0-9a-f]+ )?<(?P<loc>[^>]*)> (?:\S*:[0-9]+(?::[0-9]+)? )?(?P<rest>.*)$")
+    fn_re = re.compile(r"^(?P<ind>[|`\- ]*)FunctionDecl 0x[0-9a-f]+ (?:prev 0x[0-9a-f]+ )?<(?P<loc>[^>]*)> (?:\S*:[0-9]+(?::[0-9]+)? )?(?P<rest>.*)$")
     for f in files:
         path = os.path.join(repo, "feel-number", f)
         rc, out, err = run([CLANG, "-fsyntax-only", "-fno-color-diagnostics", "-w"] + dflags + ["-Xclang", "-ast-dump", path])
